@@ -129,6 +129,10 @@ structure St where
   /-- C09 on the implementation's records: a trusted status only with a measurement-backed (bound, as-of) -/
   c09 : Bool := true
   coldTemptation : Bool := false
+  /-- C03 on the history's long-lived client: with no update in flight every query is answered from the latest
+      completed publication (the model's answer) -/
+  c03 : Bool := true
+  queries : Nat := 0
 deriving Inhabited
 
 /-- `rec a b c d bound drift reserved status [@gen]`: (bound, as-of, status code, generation) -/
@@ -175,7 +179,8 @@ def step (w : World) (implOuts : List (List String)) (s : St) (iev : Nat × Ev) 
     | [] => { s with outs := "err open" :: s.outs }
     | r :: _ =>
       let m := clientQuery w r tr tm
-      let s := { s with outs := outcomeText m :: s.outs }
+      let s := { s with outs := outcomeText m :: s.outs, queries := s.queries + 1,
+                        c03 := s.c03 && ((implOuts[i]?).map (String.intercalate " ")) == some (outcomeText m) }
       -- oracle on the implementation's answer
       match (implOuts[i]?).bind parseOutcome with
       | none => { s with c01 := false }
@@ -211,7 +216,8 @@ def line (kind : String) (args impl : List String) : Option String :=
       let s := (evs.zipIdx.map (fun (e, i) => (i, e))).foldl (step w implOuts) s0
       let v := (if s.checked == 0 then "C01:na" else if s.c01 then "C01:holds" else "C01:FAILS") ++
         (if s.implGen.isNone then " C11:na" else if s.c11 then " C11:holds" else " C11:FAILS") ++
-        (if s.c09 then " C09:holds" else " C09:FAILS")
+        (if s.c09 then " C09:holds" else " C09:FAILS") ++
+        (if s.queries == 0 then " C03:na" else if s.c03 then " C03:holds" else " C03:FAILS")
       let tags := (if s.coldTemptation then ["trustTemptation"] else []) ++ (if s.d.published.length ≥ 3 then ["pubs3"] else []) ++ (if s.trusted > 0 then ["trusted"] else []) ++ (if s.tight > 0 then ["tight"] else []) ++
         (if s.restarts > 0 then ["restart"] else []) ++ (if s.silences > 0 then ["outage"] else []) ++
         (if !s.hypOk then ["hypothesesViolated"] else []) ++ (if s.na > 0 then ["someNa"] else [])
